@@ -18,13 +18,16 @@ use std::sync::atomic::Ordering::Relaxed;
 use std::sync::Arc;
 
 fn run_model<F: Fam>(ctx: &Ctx, prop: &'static str, label: &str, streams: Vec<Stream>, r: usize, all_k_below: usize, max_dev: u8, faults: bool) {
+    run_model_threads::<F>(ctx, prop, label, streams, r, all_k_below, max_dev, faults, rayon::current_num_threads())
+}
+
+pub fn run_model_threads<F: Fam>(ctx: &Ctx, prop: &'static str, label: &str, streams: Vec<Stream>, r: usize, all_k_below: usize, max_dev: u8, faults: bool, threads: usize) {
     if streams.is_empty() {
         return;
     }
     let n = streams.len();
     let stats = Arc::new(Stats::default());
     let model: PollModel<F> = PollModel { prop, streams: Arc::new(streams), r, all_k_below, max_dev, faults, stats: stats.clone(), _f: PhantomData };
-    let threads = rayon::current_num_threads();
     let res = e1::explore(model, threads);
     ctx.state(res.unique_states);
     ctx.trans(stats.transitions.load(Relaxed));
